@@ -7,8 +7,8 @@ if ! git -C /repo diff --quiet; then echo "/repo has local modifications; refusi
 if ! git -C /repo apply --check "$patch" 2>/dev/null; then
   if git -C /repo apply --3way --check "$patch" 2>/dev/null; then MODE="--3way"; else echo "PATCH DOES NOT APPLY: $patch"; exit 3; fi
 else MODE=""; fi
-git -C /repo apply $MODE "$patch" || exit 3
 trap 'git -C /repo reset -q --hard HEAD' EXIT
+git -C /repo apply $MODE "$patch" || { echo "PATCH CONFLICTS WITH CURRENT HEAD: $patch"; exit 3; }
 for id in "$@"; do
   out=$(timeout 1500 ./check "$id" ${TIER:-quick} 2>&1); rc=$?
   nv=$(echo "$out" | grep -c "^VIOLATION")
